@@ -128,6 +128,7 @@ class Proxy:
     """what supervisorctl talks to: reloadConfig is the real interface, the rest is recorded and applied by precondition"""
     def __init__(self, rpc, active):
         self.rpc, self.active, self.calls, self.file_names = rpc, list(active), [], None
+        self.stopped = set()      # every group of the old file is running until it is stopped
     def reloadConfig(self):
         r = self.rpc.reloadConfig()
         self.file_names = [g.name for g in self.rpc.supervisord.options.process_group_configs]
@@ -135,10 +136,16 @@ class Proxy:
     def getAllProcessInfo(self):
         return [{'group': n, 'name': n} for n in self.active]
     def stopProcessGroup(self, n):
-        self.calls.append('stop:' + L.hx(n)); return []
+        self.calls.append('stop:' + L.hx(n)); self.stopped.add(n); return []
     def removeProcessGroup(self, n):
+        from supervisor.compat import xmlrpclib
+        from supervisor.xmlrpc import Faults
         self.calls.append('remove:' + L.hx(n))
-        if n in self.active: self.active.remove(n)
+        if n not in self.active:
+            raise xmlrpclib.Fault(Faults.BAD_NAME, 'BAD_NAME: ' + n)
+        if n not in self.stopped:      # remove_process_group refuses while a process is not stopped
+            raise xmlrpclib.Fault(Faults.STILL_RUNNING, 'STILL_RUNNING: ' + n)
+        self.active.remove(n)
         return True
     def addProcessGroup(self, n):
         self.calls.append('add:' + L.hx(n))
@@ -238,7 +245,11 @@ def one_pair(ctx, st, cfg, label, newsecs, tag):
         for args in argsets:
             px = Proxy(rpc, [g.name for g in old_groups])
             ctl = Ctl(px)
-            DefaultControllerPlugin(ctl).do_update(' '.join(args))
+            try:
+                DefaultControllerPlugin(ctl).do_update(' '.join(args))
+            except Exception as e:
+                ctx.violation('update-aborted:' + type(e).__name__ + (':remove-before-stop' if 'STILL_RUNNING' in str(e) else ''),
+                              'update %s aborted after %r: %s' % (args, px.calls, str(e)[:120]), inp)
             ops.append(('calls ' + ' '.join(L.hx(x) for x in args)).strip()); lines.append(' '.join(px.calls))
             ops.append(('after ' + ' '.join(L.hx(x) for x in args)).strip()); lines.append(names(px.active))
             valid = [] if (not args or 'all' in args) else args
